@@ -788,8 +788,8 @@ def runCase (j : Json) : E Json := do
     let elems := (List.finRange m).map fun i =>
       let ts : List (Expo × Int) := a.poly.terms.map fun t => (t.1, (t.2.get i).re.num)
       let toks := Print.printTokens g r inv ts
-      let text := PrintText.renderStr a.poly.names toks
-      let back := PrintText.readStr a.poly.names text
+      let text := PrintText.renderStr PrintText.intCodec a.poly.names toks
+      let back := PrintText.readStr PrintText.intCodec a.poly.names text
       Json.mkObj [("text", String.ofList (text.map Char.ofNat)),
         ("read", match back with
           | some l => Json.arr (l.map fun t => Json.arr #[toJson t.1, toJson t.2]).toArray
